@@ -5,7 +5,7 @@ import ast
 
 import z3
 
-from .core import Core, State, fresh_name
+from .core import Core, State, fresh_name, pin, simp
 from .vals import BM, Builtin, Cls, Fn, It, Mod, Star, SuperProxy, T, Tup, Unsupported
 
 OK, RAISE = "ok", "raise"
@@ -48,7 +48,7 @@ class ExprMixin(Core):
 
     def split(self, st, cond, k_true, k_false):
         """fork on Bool term cond (code mode)"""
-        cond = z3.simplify(cond)
+        cond = simp(cond)
         if z3.is_true(cond):
             return k_true(st)
         if z3.is_false(cond):
@@ -75,7 +75,7 @@ class ExprMixin(Core):
             return
         live = [a for a in alts if self.feasible(st, a)]
         if len(live) == 1:
-            st.ghost[("is", t.get_id())] = live[0].decl().params()[0].name()
+            st.ghost[("is", pin(t))] = live[0].decl().params()[0].name()
             st.pc.append(live[0])
 
     # ------------------------------------------------------------------
@@ -560,7 +560,7 @@ class ExprMixin(Core):
                 if r.decl().params()[0].name() == known:
                     return self.ok(T("V", val), st)
         if st.mode == "code":
-            ck = ("cls", t.get_id(), attr)
+            ck = ("cls", pin(t), attr)
             if ck in st.ghost:
                 return self.ok(T("V", alts[st.ghost[ck]][1]), st)
             for n_alt, (r, val) in enumerate(alts):
